@@ -7,11 +7,20 @@ from analysis.guards import PI
 DIG = {"u8": ("i8", 8), "u16": ("i16", 16), "u32": ("i32", 32), "u64": ("i64", 64)}
 
 
+def _thorough():
+    from . import arith
+    return arith.THOROUGH[0]
+
+
 def uvals(b):
+    if b == 8 and _thorough():
+        return list(range(256))          # exhaustive for the u8 digit primitives
     return [0, 1, 2, (1 << b) - 1, (1 << b) - 2, 1 << (b - 1), (1 << (b - 1)) - 1, 0x5A & ((1 << b) - 1), 3]
 
 
 def svals(b):
+    if b == 8 and _thorough():
+        return list(range(-128, 128))
     return [0, 1, -1, -2, 2, (1 << (b - 1)) - 1, (1 << (b - 1)) - 2, -(1 << (b - 1)), -(1 << (b - 1)) + 1, 1 << (b - 2), -(1 << (b - 2))]
 
 
